@@ -365,9 +365,11 @@
   (! (=> (and (closed h0 e) (nframeX h0 h1 na0 x) (<= e x) (<= e na0)) (closed h1 e))
      :pattern ((closed h0 e) (nframeX h0 h1 na0 x)))))
 ; (5) sizes and heights of well-formed trees are positive / non-negative
-;     (lemma wf_bounds in avl.lemmas, by induction on the tree)
+;     (lemma wf_bounds in 40_model.lemmas, by induction on the tree)
+;@axiom-begin wf_bounds
 (assert (forall ((t T)) (! (=> (and (wfT t) (not ((_ is TNil) t))) (and (>= (siz t) 1) (>= (hgt t) 0) (=> ((_ is Inner) t) (>= (hgt t) 1))))
   :pattern ((wfT t)))))
+;@axiom-end wf_bounds
 
 ;  (6) a node without in-memory children depends on nothing but its own record
 (assert (forall ((h0 RegN) (h1 RegN) (na0 Int) (x Int) (r Int))
